@@ -257,6 +257,10 @@ class _STIXBase(collections.abc.Mapping):
                 # can still be checked.
                 try:
                     stix2.properties._check_no_null_or_empty_list(prop_val)
+                except RecursionError:
+                    raise InvalidValueError(
+                        cls, prop_name, reason="nested too deeply",
+                    )
                 except ValueError as exc:
                     raise InvalidValueError(
                         cls, prop_name, reason=str(exc),
